@@ -39,6 +39,13 @@ def idx {α} (l : List α) (i : Int) : Res α :=
     | some a => .ok a
     | none => panicIdx
 
+/-- `a[i]` on an array view of a slice (same function as `idx` on the list, constant time in the driver) -/
+def idxA {α} (a : Array α) (i : Int) : Res α :=
+  if i < 0 then panicIdx
+  else match a[i.toNat]? with
+    | some x => .ok x
+    | none => panicIdx
+
 /-- `for i := lo; i < hi; i++ { s = body(i, s) }` -/
 def forRange {σ} (lo hi : Int) (body : Int → σ → Res σ) (s : σ) : Res σ :=
   (List.range (hi - lo).toNat).foldlM (fun s k => body (lo + (k : Nat)) s) s
@@ -65,16 +72,30 @@ def getBit (bits : Bits) (i : Int) : Res Bool := idx bits i
 
 def sizeInBytes (bits : Bits) : Int := ((bits.length + 7) / 8 : Nat)
 
+/-- number of bits the word slice of a `BitArray` of this size holds when it was built from
+    `NewEmptyBitArray()` by appends (`ensureCapacity` allocates `(size+31)/32` words, at least one) -/
+def capacityOf (size : Nat) : Nat := 32 * max 1 ((size + 31) / 32)
+
+/-- `Get(i)` as `ToBytes` sees it: indexes 32-bit words, so an index between `size` and the capacity
+    reads a zero bit instead of panicking (only reachable with inconsistent block sizes) -/
+def getBitCap (bits : Array Bool) (i : Int) : Res Bool :=
+  if i < 0 then panicIdx
+  else match bits[i.toNat]? with
+    | some b => .ok b
+    | none => if i.toNat < capacityOf bits.size then .ok false else panicIdx
+
 /-- inner loop of `ToBytes`: eight `Get(bitOffset)`, most significant first -/
-def toByte (bits : Bits) (bitOffset : Int) : Res Nat :=
+def toByte (bits : Array Bool) (bitOffset : Int) : Res Nat :=
   (List.range 8).foldlM (fun (b : Nat) j => do
-    let g ← getBit bits (bitOffset + (j : Nat))
+    let g ← getBitCap bits (bitOffset + (j : Nat))
     pure (if g then b ||| (1 <<< (7 - j)) else b)) 0
 
 /-- `BitArray.ToBytes(bitOffset, array, 0, numBytes)` into a fresh `make([]byte, numBytes)` -/
 def toBytes (bits : Bits) (bitOffset : Int) (numBytes : Int) : Res (List Nat) :=
   if numBytes < 0 then .error (.panic "makeslice: len out of range")
-  else (List.range numBytes.toNat).mapM (fun i => toByte bits (bitOffset + 8 * (i : Nat)))
+  else
+    let arr := bits.toArray
+    (List.range numBytes.toNat).mapM (fun i => toByte arr (bitOffset + 8 * (i : Nat)))
 
 /-- `BitArray.Xor(other)` -/
 def xorBits (a b : Bits) : Res Bits :=
@@ -352,6 +373,7 @@ def terminateBits (numDataBytes : Int) (bits : Bits) : Res Bits := do
 def generateECBytes (dataBytes : List Nat) (numEcBytesInBlock : Int) : Res (List Nat) :=
   let numDataBytes : Int := dataBytes.length
   if numDataBytes + numEcBytesInBlock < 0 then .error (.panic "makeslice: len out of range")
+  else if numEcBytesInBlock < 0 then panicIdx    -- toEncode[i] with len(toEncode) < numDataBytes (the sum is >= 0, so data is not empty)
   else
     let toEncode := dataBytes.map (· % 256) ++ List.replicate numEcBytesInBlock.toNat 0
     if numEcBytesInBlock ≤ 0 then .error .writer         -- Encode: "No error correction bytes"
@@ -607,13 +629,13 @@ def zigzagLoop {σ} (step : Int → Int → σ → Res σ) (width height : Int) 
   zigzagOuter step height (width.toNat + 1) (width - 1) (height - 1) (-1) s
 
 /-- body of the innermost loop of `embedDataBits` at cell (xx, y): state = (matrix, bitIndex) -/
-def embedCell (K : Kernels) (dataBits : Bits) (maskPattern : Int) (xx y : Int) (st : ByteMatrix × Nat) :
+def embedCell (K : Kernels) (dataBits : Array Bool) (maskPattern : Int) (xx y : Int) (st : ByteMatrix × Nat) :
     Res (ByteMatrix × Nat) := do
   let (m, bitIndex) := st
   if !isEmpty (← m.get xx y) then pure (m, bitIndex)          -- continue
   else
-    let (bit, bitIndex) ← if bitIndex < dataBits.length then do
-        let b ← getBit dataBits bitIndex
+    let (bit, bitIndex) ← if bitIndex < dataBits.size then do
+        let b ← idxA dataBits bitIndex
         pure (b, bitIndex + 1)
       else pure (false, bitIndex)
     let bit ← if maskPattern ≠ -1 then
@@ -626,7 +648,7 @@ def embedCell (K : Kernels) (dataBits : Bits) (maskPattern : Int) (xx y : Int) (
 
 /-- `embedDataBits(dataBits, maskPattern, matrix)` -/
 def embedDataBits (K : Kernels) (dataBits : Bits) (maskPattern : Int) (m : ByteMatrix) : Res ByteMatrix := do
-  let (m, bitIndex) ← zigzagLoop (embedCell K dataBits maskPattern) m.width m.height (m, 0)
+  let (m, bitIndex) ← zigzagLoop (embedCell K dataBits.toArray maskPattern) m.width m.height (m, 0)
   if bitIndex ≠ dataBits.length then .error .writer
   pure m
 
